@@ -35,7 +35,8 @@ def _history_case(draw, tier):
     cfg = draw(history.configs(wrappers=("interval", "interval", "interval", "reverse", "path", "tree"),
                                max_pieces=20000))
     big = tier == "thorough"
-    ops = draw(history.op_lists(cfg, min_ops=2, max_ops=24 if big else 12, max_sweep=150 if big else 60))
+    ops = draw(history.op_lists(cfg, min_ops=2, max_ops=24 if big else 12, max_sweep=150 if big else 60,
+                                allow_point=True))
     # adversarial raw queries: shorter than tol, 1 ulp long, ending exactly at t1
     extra = []
     span = cfg["t1"] - cfg["t0"]
@@ -192,7 +193,8 @@ def run_case(case):
             queries = queries + queries[::-1]
     fail, checks, max_nodes, max_cache = _run_queries(cfg, queries, sig)
     tol = cfg["tol"]
-    subtol = any(0 < b - a < tol for a, b in queries) if tol > 0 else any(0 < b - a < 1e-12 for a, b in queries)
+    iv = [(a, b) for a, b in queries if a is not None]
+    subtol = any(0 < b - a < tol for a, b in iv) if tol > 0 else any(0 < b - a < 1e-12 for a, b in iv)
     labels = [f"kind={kind}", f"cache={cfg['cache_size']}", f"wrapper={cfg['wrapper']}"]
     if cfg["dt"] is not None:
         labels.append("dt_hint")
@@ -272,3 +274,20 @@ def _run_sdeint(case):
         labels.append("around_warmup_boundary")
     return Result(nontrivial=steps > 100 or mode in ("tree", "tol"), labels=labels, checks=1, fail=fail,
                   metrics={"max_sdeint_steps": steps, "max_nodes_created_per_call": nodes})
+
+
+MACHINE_CLAUSES = ("crash", "cache_bound")
+
+
+def finalize(tier, seed, stats):
+    """Second engine: Hypothesis rule-based state machine over the same Brownian object (vp/machine.py)."""
+    import torchsde
+    from .. import machine
+    n, steps = (40, 40) if tier == "quick" else (1200, 80)
+    viol, cov = machine.run(torchsde, ID, seed, n, steps)
+    if viol is not None and viol["clause"].startswith(MACHINE_CLAUSES):
+        stats.violations.append({"case": viol["case"], "shrunk": True,
+                                 "fail": {"clause": "state_machine:" + viol["clause"], "msg": viol["msg"], "sig": {}}})
+    elif viol is not None:
+        cov["state_machine_stopped_by_other_property_clause"] = viol["clause"]
+    return cov
